@@ -289,6 +289,28 @@ def rule_AU1(ctx, tier):
             rr.ok("UUID = hash(locator || full serialisation of the user's public key)", sample={"rule": "AU1", "UUID::new pieces": [og.show(pc)[:80] for pc in pieces]})
         else:
             rr.fail("uuid-not-injective", "`UUID::new` hashes %s: distinct (locator, user) pairs must give distinct storage keys — an encoding of the key that drops information (x-only, a prefix, ...) lets two users write to the same appointment" % [og.show(pc)[:70] for pc in pieces], where=un.span)
+    # a request is bounced as "already triggered" only because of the requester's OWN tracker: the guard of every
+    # AlreadyTriggered answer is `Responder::has_tracker(uuid)` itself, with the uuid of (this locator, the authenticated user)
+    for fid in P.family(W + "add_appointment") if (W + "add_appointment") in P.bodies else []:
+        fb = P.bodies[fid]
+        for bb in fb.rpo():
+            for st in fb.blocks[bb]["s"]:
+                if not (st["k"] == "assign" and st["rv"]["k"] == "agg" and st["rv"].get("variant") == "AlreadyTriggered"):
+                    continue
+                own = False
+                for f in facts_at(ctx, fb, bb):
+                    if f[0] != "truth" or f[2] is not True:
+                        continue
+                    t_ = og.strip(f[1])
+                    if isinstance(t_, tuple) and t_ and t_[0] in ("call", "ret") and t_[1].endswith("Responder::has_tracker"):
+                        args = t_[2] if t_[0] == "call" else t_[4]
+                        u_ = og.show(args[1]) if len(args) > 1 else ""
+                        if "authenticate_user(" in u_ and ".v:Ok.f:0" in u_ and ("ExtendedAppointment::uuid(" in u_ or "UUID::new(" in u_) and ("param#2@add_appointment" in u_):
+                            own = True
+                if own:
+                    rr.ok("AlreadyTriggered only for the authenticated user's own tracker")
+                else:
+                    rr.fail("bounce:foreign-tracker", "add_appointment answers AlreadyTriggered on a path not guarded by `has_tracker(uuid of this locator and the authenticated user)`: another user's tracker for the same locator would bounce (and reveal itself to) this user", where=fb.line_of(bb))
     return rr
 
 
